@@ -830,7 +830,7 @@ Print Assumptions C15_exactly_once_inv.
 
 (* EXACTLY ONCE WITHOUT ABSTRACT net/url: a registry that writes its next links as
    </path?escaped query> (render_c), the client resolving them with net/url as modelled in
-   Model/PagingUrl.v (resolve_c = resolve_ref + lenient query reading), no page size configured:
+   Model/PagingUrl.v (resolve_c = resolve_ref + lenient query reading, n read as a number), any page size:
    Tags / Repositories deliver exactly what the registry shows after `last`, once, in order --
    for every list, split oracle, cap, cursor kind (last or opaque token), shown subset, extra
    link parameters and start value.  No hypothesis about rendering or resolution is left. *)
@@ -848,7 +848,7 @@ Theorem C15_exactly_once_concrete :
     end ->
     (forall x : str, In x (map fst L) -> Forall byte_ok x) ->
     (forall i : nat, all_vs (d_extra (ds i)) /\ query_ok (d_extra (ds i))) ->
-    (c_n c <= 0)%Z ->
+    (c_n c < 10 ^ 40)%Z ->
     forall (last0 : list N) (fuel : nat),
     c_kind c <> KReferrers ->
     NoDup (map fst L) ->
@@ -866,7 +866,13 @@ Print Assumptions C15_exactly_once_concrete.
 
 Example C15_example_concrete :
   let t := loop (reg_serve KTags (CToken (b "token") (b "p;")) (fun _ p => p) ex_vis ex_L 1 ex_ds render_c (fun _ => b "; rel=""next"""))
-                (resolve_c (b "http") (b "reg.test")) (fun _ => false) (mkCfg KTags 0 0 []) 6 0 0 (mkUrl exs_path []) (b "a") in
+                (resolve_c (b "http") (b "reg.test")) (fun _ => false) (mkCfg KTags 7 0 []) 6 0 0 (mkUrl exs_path []) (b "a") in
   t_out t = Done /\ map (map fst) (t_pages t) = [[b "b"]; []; [b "d"]] /\
-  map (fun u => qget (b "token") (u_query u)) (t_reqs t) = [None; Some (VS (b "p;b")); Some (VS (b "p;c"))].
+  map (fun u => qget (b "token") (u_query u)) (t_reqs t) = [None; Some (VS (b "p;b")); Some (VS (b "p;c"))] /\
+  map (fun u => qget k_n (u_query u)) (t_reqs t) = [Some (VN 7); Some (VN 7); Some (VN 7)].
 Proof. vm_compute. repeat split. Qed.
+
+(* strconv.Itoa / Atoi as modelled: reading back what was written *)
+Theorem C15_atoi_itoa : forall n, n < 10 ^ 40 -> atoi (itoa n) = Some n.
+Proof. exact atoi_itoa. Qed.
+Print Assumptions C15_atoi_itoa.
